@@ -5,7 +5,7 @@ use crate::obs::{self, hash_hex, BIG};
 use crate::ops::{parse_op, Op};
 use milhouse::builder::Builder;
 use milhouse::level_iter::LevelNode;
-use milhouse::{Arc, Error, List, Tree, UpdateMap, Vector};
+use milhouse::{Arc, Error, List, Tree, Vector};
 use ssz::{Decode, Encode};
 use std::collections::{HashMap, HashSet};
 use std::convert::TryFrom;
@@ -19,6 +19,10 @@ use typenum::Unsigned;
 
 /// Upper bound on the number of threads `par_hash` / `par_mix` will spawn.
 pub const MAX_THREADS: usize = 64;
+
+/// `bulk` on a `VecMap`-backed map refuses keys at or above this bound (`err:badreg`, nothing
+/// called): `VecMap::insert(k, _)` allocates `k + 1` slots.
+pub const MAX_VECMAP_KEY: usize = 65536;
 
 const BADREG: &str = "err:badreg";
 const NOBUILDER: &str = "err:nobuilder";
@@ -189,6 +193,16 @@ impl<T: Elem, N: Len, U: Map<T>> State<T, N, U> {
             }
             Err(e) => err(&e),
         }
+    }
+
+    /// Result of `b_push` / `b_push_node`: `BuilderFull` leaves the builder usable, any other
+    /// error drops it (its stack may have been partially consumed).
+    fn builder_result(&mut self, r: Result<(), Error>) -> String {
+        match &r {
+            Ok(()) | Err(Error::BuilderFull) => {}
+            Err(_) => self.builder = None,
+        }
+        unit(r)
     }
 
     /// Execute one operation, returning the result payload of its `R` line.
@@ -393,6 +407,9 @@ impl<T: Elem, N: Len, U: Map<T>> State<T, N, U> {
             }
             Op::Bulk(a, pairs) => {
                 let l = src_list!(a);
+                if U::VEC_BACKED && pairs.iter().any(|(i, _)| *i >= MAX_VECMAP_KEY) {
+                    return BADREG.to_string();
+                }
                 let mut m = U::default();
                 for (i, v) in pairs {
                     m.insert(*i, v.clone());
@@ -489,11 +506,17 @@ impl<T: Elem, N: Len, U: Map<T>> State<T, N, U> {
                 }
                 Err(e) => err(&e),
             },
-            Op::BPush(v) => match &mut self.builder {
-                Some(b) => unit(b.push(v.clone())),
-                None => NOBUILDER.to_string(),
-            },
+            Op::BPush(v) => {
+                let Some(b) = &mut self.builder else {
+                    return NOBUILDER.to_string();
+                };
+                let r = b.push(v.clone());
+                self.builder_result(r)
+            }
             Op::BPushNode(a, path) => {
+                if self.builder.is_none() {
+                    return NOBUILDER.to_string();
+                }
                 let c = src!(a);
                 if c.pending() {
                     return PENDING.to_string();
@@ -502,13 +525,12 @@ impl<T: Elem, N: Len, U: Map<T>> State<T, N, U> {
                     Some(t) => t.clone(),
                     None => return "err:badpath".to_string(),
                 };
-                match &mut self.builder {
-                    Some(b) => {
-                        let len = t.compute_len();
-                        unit(b.push_node(t, len))
-                    }
-                    None => NOBUILDER.to_string(),
-                }
+                let Some(b) = &mut self.builder else {
+                    return NOBUILDER.to_string();
+                };
+                let len = t.compute_len();
+                let r = b.push_node(t, len);
+                self.builder_result(r)
             }
             Op::BFinish => {
                 let Some(b) = self.builder.take() else {
